@@ -65,6 +65,7 @@ def run(ctx: Ctx) -> None:
     ctx.instance("C16.6/restore-exact", "load_snapshot restores saved timer targets unconditionally and unchanged", nn, 2)
     save_exact(ctx, py)
     live_sources(ctx, py)
+    lcd_state_cover(ctx, py, rs)
 
 
 # ---------------------------------------------------------------------------
@@ -637,3 +638,47 @@ def live_sources(ctx: Ctx, py: PyProgram) -> None:
     for rel, ln, what in found:
         ctx.violation("C16.4/live-sources", key_of(rel, what.split(" changes ")[0], "stale stored copy"), what, f"{rel}:{ln}")
     ctx.instance("C16.4/live-sources", "display-layer methods scanned for stored copies of chip state and their invalidation", scanned, 20)
+
+
+def lcd_state_cover(ctx: Ctx, py: PyProgram, rs: RustProgram) -> None:
+    """Every field of the per-chip controller state (the state struct/dataclass itself is the rule's slot) is written by the LCD saver
+    and assigned by the LCD loader, in each implementation."""
+    HD = "pce500/display/hd61202.py"
+    CW = "pce500/display/controller_wrapper.py"
+    PL = "pce500/display/pipeline.py"
+    for f in (HD, CW, PL):
+        ctx.file_used(REPO / f)
+    mod = py.module(HD)
+    cls = next((n for n in mod.tree.body if isinstance(n, ast.ClassDef) and n.name == "HD61202State"), None)
+    ctx.need(cls is not None, "HD61202State dataclass vanished")
+    fields = [st.target.id for st in cls.body if isinstance(st, ast.AnnAssign) and isinstance(st.target, ast.Name)]
+    ctx.need(len(fields) >= 4, f"HD61202State has only {fields}")
+    cap = py.func(PL, "_snapshot_from_chips")
+    saver = py.func(EMU, "PCE500Emulator._capture_lcd_snapshot")
+    loader = py.func(CW, "HD61202Controller.load_snapshot")
+    captured = {a.attr for a in ast.walk(cap) if isinstance(a, ast.Attribute) and attr_chain(a.value) and attr_chain(a.value).endswith(".state")}
+    written = {k.value for d in ast.walk(saver) if isinstance(d, ast.Dict) for k in d.keys if isinstance(k, ast.Constant)}
+    restored = {t.attr for a in ast.walk(loader) if isinstance(a, ast.Assign) for t in a.targets if isinstance(t, ast.Attribute) and attr_chain(t.value) and attr_chain(t.value).endswith(".state")}
+    n = 0
+    for f in fields:
+        n += 1
+        miss = [w for w, ok in (("captured by _snapshot_from_chips", f in captured), ("written by _capture_lcd_snapshot", f in written), ("restored by HD61202Controller.load_snapshot", f in restored)) if not ok]
+        if miss:
+            ctx.violation("C16.3/lcd-state-cover", key_of(HD, "HD61202State", f),
+                          f"Python HD61202State.{f} is not " + ", not ".join(miss) + ": after a restore the chip's behaviour that depends on it differs from the uninterrupted machine", f"{HD}:{cls.lineno}")
+    LCD = "core/src/lcd.rs"
+    ctx.file_used(REPO / rs.file_for(LCD))
+    stt = rs.struct(LCD, "Hd61202State")
+    rfields = [f["name"] for f in stt["fields"]]
+    ex = rs.fn(LCD, "LcdController::export_snapshot")
+    ld = rs.fn(LCD, "LcdController::load_snapshot")
+    ex_read = {expr_text(e).replace(" ", "").split(".")[-1] for e in walk(ex.body) if e.get("k") == "field" and ".state." in expr_text(e).replace(" ", "")}
+    ex_read |= {m.group(1) for st in walk(ex.body) if st.get("k") == "macro" for m in re.finditer(r"state\s*\.\s*(\w+)", st.get("src", "") or st.get("tokens", "") or "")}
+    ld_set = {expr_text(a["l"]).replace(" ", "").split(".")[-1] for a in walk(ld.body) if a.get("k") == "assign" and ".state." in expr_text(a["l"]).replace(" ", "")}
+    for f in rfields:
+        n += 1
+        miss = [w for w, ok in (("exported by LcdController::export_snapshot", f in ex_read), ("restored by LcdController::load_snapshot", f in ld_set)) if not ok]
+        if miss:
+            ctx.violation("C16.3/lcd-state-cover", key_of(rs.file_for(LCD), "Hd61202State", f),
+                          f"Rust Hd61202State.{f} is not " + ", not ".join(miss) + ": after a restore the chip's behaviour that depends on it differs from the uninterrupted machine", ex.where)
+    ctx.instance("C16.3/lcd-state-cover", "per-chip LCD controller state fields x {saved, restored} x {Python, Rust}", n, 8)
